@@ -33,6 +33,7 @@ var c25Kinds = []c25Kind{
 	{"VS/1Sec/T", time.Second, true},
 	{"VM/1Min/T", time.Minute, true},
 	{"VH/1H/T", time.Hour, true},
+	{"VX/1Min/T", time.Minute, true}, // every write of this kind puts its records into the SAME second of one interval
 }
 
 type capSender struct{ tgs [][]byte }
@@ -44,7 +45,7 @@ func init() {
 	mc.Def(mc.Check{
 		ID:    "C25",
 		Level: "exploration",
-		Rule: "write kinds {fixed 1Min, fixed 1D, variable 1Sec, variable 1Min, variable 1H} (2 rows each, variable rows at sub-interval offsets with seconds and nanoseconds); every history of <=3 writes x every partition into consecutive groups, where the writes of a group are queued by concurrent writers before ONE flush of the real SyncWAL loop (so a group is one transaction, possibly mixing fixed and variable write sets); " +
+		Rule: "write kinds {fixed 1Min, fixed 1D, variable 1Sec, variable 1Min, variable 1H, variable 1Min with all records of all writes in one second} (2 rows each, variable rows at sub-interval offsets with seconds and nanoseconds); every history of <=3 writes x every partition into consecutive groups, where the writes of a group are queued by concurrent writers before ONE flush of the real SyncWAL loop (so a group is one transaction, possibly mixing fixed and variable write sets); " +
 			"the master's ReplicationSender is captured, a replica server on another root applies every transaction through the real Replayer (ParseTGData + WriteCSM); every bucket is then queried on both sides over the day and over sub-ranges. non-trivial = >=2 writes",
 		Assume:   []string{"UTC", "master and replica are two server instances on one device with different roots (process globals are shared; both run without background sync at query time)", "variable timestamps may differ by one resolution step"},
 		QuickMax: 6 * time.Minute, ThorMax: 20 * time.Minute,
@@ -80,6 +81,10 @@ func c25Enum(c *mc.Ctx, yield func(c25Spec)) {
 
 func c25Rows(i, kind int) ([]time.Time, []int32) {
 	k := c25Kinds[kind]
+	if k.key == "VX/1Min/T" {
+		b := time.Date(2021, 3, 1, 10, 0, 20, 0, time.UTC)
+		return []time.Time{b.Add(time.Duration(100*(i+1)) * time.Millisecond), b.Add(time.Duration(500+i+1) * time.Millisecond)}, []int32{int32(100*(i+1) + 1), int32(100*(i+1) + 2)}
+	}
 	base := time.Date(2021, 3, 1, 10, 0, 0, 0, time.UTC)
 	if k.tf == 24*time.Hour {
 		base = time.Date(2021, 3, 1, 0, 0, 0, 0, time.UTC)
